@@ -2,7 +2,7 @@
      A <type name hex> <variant hex> <payload> <src> <steps> <final> <arms>
      M <functions> <calls>   function = style|arms|nest ("-" or i0/arms), joined by ';'
                              call = fn|varianthex:payload|varianthex:payload|direct 0/1, joined by ';' 
-     Q <R|O> <ok payload> <sel> <links>
+     Q <R|O> <ok payload> <sel> <links>        link = ctx:payload[:v]   (v: ? applied to a variable declared from the call)
      T <checked 0/1> <ctx> <a> <b> <expr, prefix tokens separated by blanks>
      C <checked 0/1> <message hex>
    payload = N | I<decimal> | S<hex>; lists are comma separated, "-" = empty.
@@ -93,6 +93,9 @@ let parse_expr (toks : string list) : cexpr =
     | "*" -> let x = go () in let y = go () in CMul (x, y)
     | "/" -> let x = go () in let y = go () in CDiv (x, y)
     | "%" -> let x = go () in let y = go () in CMod (x, y)
+    | "DV" -> let x = go () in let y = go () in CCallDiv (x, y)
+    | "MD" -> let x = go () in let y = go () in CCallMod (x, y)
+    | "AT" -> let i = go () in CCallIdx i
     | _ when String.length t > 1 && t.[0] = 'L' -> CLit (z_of_string (String.sub t 1 (String.length t - 1)))
     | _ -> failwith ("expr token " ^ t)
   in
@@ -150,7 +153,9 @@ let () =
           print_endline ("F\t" ^ (if safe_a pa then "1" else "0"))
       | ["Q"; k; okp; sel; links] ->
           let lk s = match split ':' s with
-            | [c; p] -> { l_ctx = qctx_of c; l_err = payload_of p }
+            | [c; p] -> { l_ctx = qctx_of c; l_err = payload_of p; l_opnd = OpCall }
+            | [c; p; "v"] -> { l_ctx = qctx_of c; l_err = payload_of p; l_opnd = OpVar }
+            | [c; p; _] -> { l_ctx = qctx_of c; l_err = payload_of p; l_opnd = OpCall }
             | _ -> failwith ("bad link " ^ s) in
           let pq = { q_kind = (if k = "R" then KResult else KOption); q_links = List.map lk (list_field links);
                      q_ok = payload_of okp; q_sel = nat_of_int (int_of_string sel) } in
